@@ -56,7 +56,7 @@ PROPS = {
     "C02": {"slices": CRDT, "trusted": [], "assumptions": ["clocks below the half-range wrap"]},
     "C09": {"slices": CRDT + DOC, "trusted": [], "assumptions": ["snapshot export/import is the identity on the model state (C10 carries the round trip)"]},
     "C15": {
-        "slices": [("time", {"quick": [], "thorough": [], "search": []})] + CRDT,
+        "slices": [("time", {"quick": [], "thorough": [], "search": []})] + CRDT + DOC,
         "trusted": [],
         "assumptions": ["clocks stay below the half-range wrap (era < 2^31, lamport < 2^63) — proved unreachable otherwise only by event counting"],
     },
